@@ -43,13 +43,17 @@ where
     };
 
     // headers
+    // Every field line counts against the limit, including the ones dropped below because their name
+    // is not a valid token: otherwise a head made of such lines would never end.
+    let mut fields = 0usize;
     loop {
         buffers::read_line_strict(reader, &mut line, MAX_LINE_LEN)?;
         if line.is_empty() {
             break;
-        } else if headers.len() == max_headers {
+        } else if fields == max_headers {
             return Err(InvalidResponseKind::Header.into());
         }
+        fields += 1;
 
         let col = line
             .iter()
